@@ -1193,6 +1193,11 @@ def rule_counter(ck, W, pcs):
                 if fs is None:
                     continue    # unreachable
                 g = find_fact(fs, "<", A=C, truth=True)
+                if not g and find_fact(fs, "<", B=C, truth=False):
+                    lim_ = find_fact(fs, "<", B=C, truth=False)[0][1]
+                    probs.append("line %s: `%s` is reached with %s <= %s only: the rejection covers %s > %s, so one item more than declared is stored (%s == %s)" % (
+                        u.get("l"), render(u)[:40], C, lim_, C, lim_, C, lim_))
+                    continue
                 if not g:
                     sus = suspects(W, e, u, {"@" + C})
                     if sus:
@@ -1899,6 +1904,11 @@ def rule_index_range(ck, W, facts):
             b, succ_ok = hit
             V = norm(n["a"][0])
             bad = passes_check(e, succ_ok, ("<", V, bound, True), b)
+            if bad and not passes_check(e, succ_ok, ("<", bound, V, False), b):
+                # every spelling of the comparison is normalised to the interval it rejects: here only (bound, oo) is rejected
+                record(key, f, n.get("l"), "the parsed index `%s` is compared with %s, but only %s > %s is rejected: admissible indices are [0, %s), the "
+                       "index %s == %s (one past the last entity) is stored in the index set" % (V, bound, V, bound, bound, V, bound))
+                continue
             if bad:
                 oth = other_compare(e, V) + suspects(W, e, None, vars_of(n["a"][0]), anywhere=True)
                 if oth:
@@ -1923,10 +1933,18 @@ def rule_index_range(ck, W, facts):
                             if ("@" + V) in parsed_vars(g):
                                 eg = W.ecfg(g)
                                 probs = []
+                                offby = False
                                 for xb in eg.normal_exits():
                                     fs = eg.facts_at_end(xb, eg.exit) or set()
                                     if not find_fact(fs, "<", A=V, B=bound, truth=True):
                                         probs.append("%s() returns normally without `%s < %s`" % (g.name, V, bound))
+                                        if find_fact(fs, "<", A=bound, B=V, truth=False):
+                                            offby = True
+                                            probs[-1] = "%s() rejects only %s > %s: %s == %s (one past the last node) is accepted" % (g.name, V, bound, V, bound)
+                                if offby:
+                                    record(key, g, g.line, "; ".join(sorted(set(probs))))
+                                    done = True
+                                    continue
                                 oth = (other_compare(eg, V) + suspects(W, eg, None, {"@" + V}, anywhere=True)) if probs else []
                                 if probs and oth:
                                     record(key, g, g.line, None, "%s; but %s may enforce it" % (probs[0], oth))
@@ -1939,6 +1957,9 @@ def rule_index_range(ck, W, facts):
                         fs = e.facts_at(n) or set()
                         if find_fact(fs, "<", A=V, B=bound, truth=True):
                             record(key, f, n.get("l"), None)
+                        elif find_fact(fs, "<", A=bound, B=V, truth=False):
+                            record(key, f, n.get("l"), "`%s` is reached with %s <= %s only: the rejection covers %s > %s, %s == %s (one past the last node) is accepted" % (
+                                render(n)[:50], V, bound, V, bound, V, bound))
                         else:
                             oth = other_compare(e, V) + suspects(W, e, n, vars_of(a))
                             if oth:
